@@ -54,3 +54,37 @@ Print Assumptions C05_gap_type_tables.
 Theorem C05_wf_satisfiable : agp_wf ex_agp /\ tpf_wf ex_tpf /\ agp_wf ex_both /\ tpf_wf (drop_tags ex_both).
 Proof. exact (conj ex_agp_wf (conj ex_tpf_wf ex_both_wf)). Qed.
 Print Assumptions C05_wf_satisfiable.
+
+(* ------------------------------------------------------------------------
+   THE COMMAND: asm-format as a whole (Model/AsmFormat.v: cli, process_fh,
+   report_overlaps; compared with the real command byte for byte -- written
+   output and STDERR -- on every generated invocation).  On any number of
+   canonical AGP files, whatever their names, --name and --qc-overlaps, what it
+   writes (to -o or STDOUT) is their concatenation, byte for byte, and it does
+   not raise. *)
+From Tola Require Import Model.OutputPlan Model.AsmFormat.
+From Tola Require Proofs.AsmFormat.
+Theorem C05_asm_format_identity : forall o files stdin,
+  files <> [] ->
+  out_format o = s "AGP" ->
+  Forall (fun f => in_format o (Some (fst f)) = s "AGP"
+                   /\ exists a, agp_wf a /\ format_agp a = Ok (snd f)) files ->
+  exists err, run o files stdin = mkAFR (concat (map snd files)) err None.
+Proof. exact Proofs.AsmFormat.asm_format_identity_on_canonical_agp. Qed.
+Print Assumptions C05_asm_format_identity.
+
+(* several input files: each is converted on its own, the results are written
+   one after the other in command-line order (no row re-homed across files) *)
+Theorem C05_asm_format_concatenates : forall o files stdin outs,
+  files <> [] ->
+  Forall2 (fun f tr => Proofs.AsmFormat.file_result o f = Ok tr) files outs ->
+  run o files stdin = mkAFR (concat (map fst outs)) (concat (map snd outs)) None.
+Proof. exact Proofs.AsmFormat.asm_format_concatenates. Qed.
+Print Assumptions C05_asm_format_concatenates.
+
+(* the diagnostics flag never changes what is written *)
+Theorem C05_qc_flag_does_not_change_output : forall in_fmt nm text out_fmt t r,
+  process_fh in_fmt nm text out_fmt true = Ok (t, r) ->
+  process_fh in_fmt nm text out_fmt false = Ok (t, []).
+Proof. exact Proofs.AsmFormat.qc_flag_does_not_change_output. Qed.
+Print Assumptions C05_qc_flag_does_not_change_output.
